@@ -110,6 +110,20 @@ def genesisOdd (g : GenesisState) : Bool :=
   g.defs.any (fun e => oddAddr e.2.author) || g.bindings.any (fun e => oddAddr e.1.2 || oddAddr e.2.owner)
   || g.withdraw.any (fun e => oddAddr e.1 || oddAddr e.2) || g.ctxs.any (fun e => e.2.provs.any oddAddr || oddAddr e.2.cons)
 
+/-- the answer a listing must give according to the PRIMARY records alone (not through an index): used by the monitor
+    next to `runQuery`, so that a wrong index shows as a wrong answer (in reachable states of the unchanged code the two
+    coincide: `C17.bindings_of_owner_exact`, `C17.pending_requests_exact`) -/
+def querySpecRecs (s : State) : Query → Option (List String)
+  | .bindings svc owner =>
+    if owner = "" then none
+    else some (sortLines (((Map.entries s.bindings).filter (fun e => e.1.1 = svc ∧ e.2.owner = owner)).map (fun e => bindingRec e.1 e.2)))
+  | .requests svc prov =>
+    some (sortLines (((FSet.elems s.activeI).filterMap (fun r =>
+      match reqView s r with
+      | some v => if v.svc = svc ∧ v.prov = prov then some (reqRec (some v)) else none
+      | none => none))))
+  | _ => none
+
 /-- result line and sorted answer records (without the `Q `/`G ` tag) -/
 def runQuery (s : State) : QueryW → String × List String
   | .badReqId => ("R err ErrInvalidRequestID", [])
